@@ -194,7 +194,7 @@ Proof.
       assert (HB : blk_okc J false (mkBlock (b_package cur) (b_version cur) (b_dists cur) (b_urgency cur)
                                              (b_comment cur) chg (Some (g1 ++ [32; 60]%N ++ g2 ++ [62%N])) (Some g4)
                                              [] (b_pairs cur) false g3)).
-      { apply cur_blk_okc; auto; try (now apply optP_some). discriminate. }
+      { apply cur_blk_okc; [exact Hok|exact Hchg|now apply optP_some|now apply optP_some|exact Hg3|discriminate]. }
       assert (Hres : exists w', st1 = mkPst NextHeadingOrEof o
                 (bl ++ [mkBlock (b_package cur) (b_version cur) (b_dists cur) (b_urgency cur) (b_comment cur) chg
                                 (Some (g1 ++ [32; 60]%N ++ g2 ++ [62%N])) (Some g4) [] (b_pairs cur) false g3])
@@ -212,7 +212,7 @@ Proof.
         assert (E : set_changes cur chg = mkBlock (b_package cur) (b_version cur) (b_dists cur) (b_urgency cur)
                       (b_comment cur) chg None None [] (b_pairs cur) false [32; 32]%N).
         { destruct cur; cbn in *; subst; reflexivity. }
-        rewrite E. apply cur_blk_okc; auto; try apply optP_none; [now left|discriminate].
+        rewrite E. apply cur_blk_okc; [exact Hok|exact Hchg|apply optP_none|apply optP_none|now left|discriminate].
       - cbn in Hstep. injection Hstep as <-. unfold sinv. cbn. auto. }
     destruct (match_blank l); [injection Hstep as <-; apply Happ; auto|].
     destruct (j_cvs J l || j_comments J l || j_more_comments J l); [injection Hstep as <-; apply Happ; auto|].
@@ -249,7 +249,7 @@ Proof.
       assert (HB : blk_okc J false (mkBlock (b_package cur) (b_version cur) (b_dists cur) (b_urgency cur)
                                              (b_comment cur) chg (Some (g1 ++ [32; 60]%N ++ g2 ++ [62%N])) (Some g4)
                                              [] (b_pairs cur) false g3)).
-      { apply cur_blk_okc; auto; try (now apply optP_some). discriminate. }
+      { apply cur_blk_okc; [exact Hok|exact Hchg|now apply optP_some|now apply optP_some|exact Hg3|discriminate]. }
       assert (Hres : exists w', st1 = mkPst NextHeadingOrEof o
                 (bl ++ [mkBlock (b_package cur) (b_version cur) (b_dists cur) (b_urgency cur) (b_comment cur) chg
                                 (Some (g1 ++ [32; 60]%N ++ g2 ++ [62%N])) (Some g4) [] (b_pairs cur) false g3])
@@ -267,7 +267,7 @@ Proof.
         assert (E : set_changes cur chg = mkBlock (b_package cur) (b_version cur) (b_dists cur) (b_urgency cur)
                       (b_comment cur) chg None None [] (b_pairs cur) false [32; 32]%N).
         { destruct cur; cbn in *; subst; reflexivity. }
-        rewrite E. apply cur_blk_okc; auto; try apply optP_none; [now left|discriminate].
+        rewrite E. apply cur_blk_okc; [exact Hok|exact Hchg|apply optP_none|apply optP_none|now left|discriminate].
       - cbn in Hstep. injection Hstep as <-. unfold sinv. cbn. auto. }
     destruct (match_blank l); [injection Hstep as <-; apply Happ; auto|].
     destruct (j_cvs J l || j_comments J l || j_more_comments J l); [injection Hstep as <-; apply Happ; auto|].
@@ -349,14 +349,16 @@ Proof.
                 = mkBlock (b_package cur) (b_version cur) (b_dists cur) (b_urgency cur) (b_comment cur) chg
                           None None [] (b_pairs cur) true [32; 32]%N).
     { destruct cur; cbn in *; subst; reflexivity. }
-    rewrite E. apply Hpend; [|exact Hbl]. apply cur_blk_okc; auto; try apply optP_none. now left.
+    rewrite E. apply Hpend; [|exact Hbl].
+    apply cur_blk_okc; [exact Hok|exact Hchg|apply optP_none|apply optP_none|now left|auto].
   - destruct Hst as (Hbl & Hchg). destruct (i_chg _ Hi) as (Hok & (F1 & F2 & F3 & F4 & F5 & F6)); [cbn; auto|].
     cbn [p_cur] in *. cbn in Hfin. injection Hfin as <-. unfold cl_of. cbn.
     assert (E : set_changes (set_no_trailer cur) chg
                 = mkBlock (b_package cur) (b_version cur) (b_dists cur) (b_urgency cur) (b_comment cur) chg
                           None None [] (b_pairs cur) true [32; 32]%N).
     { destruct cur; cbn in *; subst; reflexivity. }
-    rewrite E. apply Hpend; [|exact Hbl]. apply cur_blk_okc; auto; try apply optP_none. now left.
+    rewrite E. apply Hpend; [|exact Hbl].
+    apply cur_blk_okc; [exact Hok|exact Hchg|apply optP_none|apply optP_none|now left|auto].
   - pose proof (i_slurp _ Hi eq_refl) as Ho. cbn [p_old] in Ho. subst o.
     injection Hfin as <-. unfold cl_of. cbn.
     destruct Hst as (bs & bk & -> & Hbs & Kbk & _). now apply Hpend.
